@@ -26,6 +26,8 @@ type Profile struct {
 	ValidatorCh bool    // include a validator change
 	RestartBias float64 // probability per script step of an additional restart followed directly by guard probes
 	StartBias   float64 // probability per script step of a start with wrong / changed inputs (`restartg`); > 0 also adds one at the end
+	TinyCache   bool    // block cache of 1..2 entries: (almost) every removal takes the refill path of Chain.RemoveBlock
+	TxHeavy     bool    // every honest block carries transactions (what the transaction lookups answer after removals)
 }
 
 // Recorder drives a real node and writes the operation lines.
@@ -58,6 +60,9 @@ func NewRecorder(rng *rand.Rand, prof Profile) (*Recorder, error) {
 	cache := 515
 	if prof.SmallCache || prof.Exhaust {
 		cache = 2 + rng.Intn(4)
+	}
+	if prof.TinyCache {
+		cache = 1 + rng.Intn(2)
 	}
 	gh := uint32(0)
 	if (prof.SmallCache && rng.Intn(2) == 0) || (prof.Exhaust && rng.Intn(4) != 0) {
@@ -159,6 +164,11 @@ func (r *Recorder) randOpts() node.BlockOpts {
 			} else {
 				o.Txs = append(o.Txs, r.newTx(node.TxOK, node.TxOK))
 			}
+		}
+	}
+	if r.Prof.TxHeavy && len(o.Txs) == 0 {
+		for i, k := 0, 1+rng.Intn(2); i < k; i++ {
+			o.Txs = append(o.Txs, r.newTx(node.TxOK, node.TxOK))
 		}
 	}
 	if rng.Intn(4) == 0 {
